@@ -189,7 +189,7 @@ func (w *World) drop(uuid string) {
 // Applicable tells whether op makes sense in the current world (slot exists...).
 func (w *World) Applicable(op Op) bool {
 	switch op.Op {
-	case "upd", "del", "get", "flush", "flushc":
+	case "upd", "del", "get", "flush", "flushc", "updnan":
 		return op.Slot < len(w.Slots)
 	case "abandon":
 		return w.Cfg.Async == 0
@@ -233,6 +233,19 @@ func (w *World) Apply(op Op) {
 				w.fail("uuid-changed", "an identified object changed UUID on update")
 			}
 			w.accept(r.UUID(), r, slot < 0)
+		}
+	case "insnan", "updnan":
+		// a valid, conflict-free object that cannot be serialised: refused, nothing changes
+		slot := -1
+		if op.Op == "updnan" {
+			slot = op.Slot
+		}
+		r := w.recFor(slot, op.V, op.K)
+		r.Q = math.NaN()
+		err := w.DB.InsertOrUpdate(r)
+		w.LastClass = classify(err)
+		if err == nil {
+			w.fail("unserialisable-accepted", "InsertOrUpdate of an object holding NaN (no JSON form) returned nil")
 		}
 	case "del":
 		uuid := w.Slots[op.Slot]
